@@ -55,6 +55,12 @@ type boundsEngine struct {
 	w    *World
 	memo map[ssa.Value]bnd
 	busy map[ssa.Value]bool
+	// the block of the index/slice expression being judged: NaN-ness is a
+	// property of a value, so any ordered comparison that is true on the way
+	// to the use proves its operands non-NaN for every fact about them
+	useBlock *ssa.BasicBlock
+	nanBusy  map[ssa.Value]bool
+	assumeNotNaN map[ssa.Value]int
 }
 
 // lenOperand: v == len(x) (builtin) => x (strings/slices: resolved so that two
@@ -174,9 +180,21 @@ func (e *boundsEngine) eval1(v ssa.Value, at *ssa.BasicBlock, depth int) bnd {
 	case *ssa.Phi:
 		var r bnd
 		first := true
+		// if the merged value is proven non-NaN at the use, then on whichever
+		// edge was taken the incoming value was non-NaN
+		phiOK := isFloat64(x.Type()) && e.notNaN(x, e.useBlock, 0)
 		for i, ed := range x.Edges {
 			pred := x.Block().Preds[i]
+			if phiOK {
+				if e.assumeNotNaN == nil {
+					e.assumeNotNaN = map[ssa.Value]int{}
+				}
+				e.assumeNotNaN[stripConv(ed)]++
+			}
 			b := e.evalOnEdge(ed, pred, x.Block(), depth+1)
+			if phiOK {
+				e.assumeNotNaN[stripConv(ed)]--
+			}
 			if first {
 				r, first = b, false
 			} else {
@@ -511,6 +529,10 @@ func (e *boundsEngine) applyCmp(v ssa.Value, r bnd, bo *ssa.BinOp, truth bool, a
 	op := bo.Op
 	x, y := bo.X, bo.Y
 	if !truth {
+		// `!(x < y)` is `x >= y` only when neither side is NaN
+		if isFloat64(bo.X.Type()) && !(e.notNaN(bo.X, e.useBlock, 0) && e.notNaN(bo.Y, e.useBlock, 0)) {
+			return r
+		}
 		op = negateOp(op)
 	}
 	var other ssa.Value
@@ -751,6 +773,7 @@ func arrayLen(t types.Type) (int64, bool) {
 }
 
 func (e *boundsEngine) indexOK(base, idx ssa.Value, at *ssa.BasicBlock) (bool, string) {
+	e.useBlock = at
 	if n, ok := arrayLen(base.Type()); ok {
 		if k, ok := constInt(idx); ok && k >= 0 && k < n {
 			return true, "constant index of a fixed-size array"
@@ -836,6 +859,7 @@ func (e *boundsEngine) sliceOK(s *ssa.Slice) (bool, string) {
 	}
 	L := canonLen(s.X)
 	at := s.Block()
+	e.useBlock = at
 	lo := constB(0)
 	if s.Low != nil {
 		lo = e.eval(s.Low, at, 0)
@@ -1082,4 +1106,155 @@ func (e *boundsEngine) orderedBy(small, big ssa.Value, at *ssa.BasicBlock) (int6
 		}
 	}
 	return 0, false
+}
+
+
+// notNaN: the float value v cannot be NaN when block use executes: it is an
+// integer conversion / constant / len; or the result of rounding a non-NaN;
+// or a sum/difference of non-NaNs (finite inputs assumed only for len-derived
+// terms); or an operand of an ordered comparison (<, <=, >, >=, ==) whose true
+// edge dominates use; or tested by math.IsNaN with the false edge dominating.
+func (e *boundsEngine) notNaN(v ssa.Value, use *ssa.BasicBlock, depth int) bool {
+	if depth > 10 {
+		return false
+	}
+	if e.nanBusy == nil {
+		e.nanBusy = map[ssa.Value]bool{}
+	}
+	if e.nanBusy[v] {
+		return false
+	}
+	e.nanBusy[v] = true
+	defer delete(e.nanBusy, v)
+	if !isFloat64(v.Type()) {
+		return true
+	}
+	for k, n := range e.assumeNotNaN {
+		if n > 0 && sameNum(k, v) {
+			return true
+		}
+	}
+	switch x := v.(type) {
+	case *ssa.Const:
+		if x.Value != nil && x.Value.Kind() == constant.Float {
+			f, _ := constant.Float64Val(x.Value)
+			return f == f
+		}
+		return true
+	case *ssa.Convert:
+		if isIntType(x.X.Type()) {
+			return true
+		}
+		return e.notNaN(x.X, use, depth+1)
+	case *ssa.BinOp:
+		if x.Op == token.ADD || x.Op == token.SUB {
+			// inf-inf is NaN; finite inputs are the property's assumption, NaN inputs are not
+			if e.notNaN(x.X, use, depth+1) && e.notNaN(x.Y, use, depth+1) {
+				return true
+			}
+		}
+	case *ssa.Call:
+		if f := x.Call.StaticCallee(); f != nil {
+			switch f.String() {
+			case "math.Round", "math.Floor", "math.Ceil", "math.Trunc", "math.Abs":
+				if e.notNaN(x.Call.Args[0], use, depth+1) {
+					return true
+				}
+			}
+		}
+	case *ssa.Phi:
+		all := true
+		for _, ed := range x.Edges {
+			if !e.notNaN(ed, use, depth+1) {
+				all = false
+			}
+		}
+		if all {
+			return true
+		}
+	case *ssa.UnOp:
+		if x.Op == token.MUL {
+			if a := cellOf(x.X); a != nil {
+				if st := nearestStore(a, x); st != nil && e.notNaN(st.Val, use, depth+1) {
+					return true
+				}
+			}
+		}
+	}
+	if use == nil {
+		return false
+	}
+	// a true ordered comparison, or a failed IsNaN test, on the way to the use
+	fn := use.Parent()
+	for _, b := range fn.Blocks {
+		ifi := blockIf(b)
+		if ifi == nil || b.Succs[0] == b.Succs[1] {
+			continue
+		}
+		cond := ifi.Cond
+		neg := false
+		for {
+			if u, ok := cond.(*ssa.UnOp); ok && u.Op == token.NOT {
+				cond, neg = u.X, !neg
+				continue
+			}
+			break
+		}
+		switch c := cond.(type) {
+		case *ssa.BinOp:
+			switch c.Op {
+			case token.LSS, token.LEQ, token.GTR, token.GEQ, token.EQL:
+			default:
+				continue
+			}
+			if !sameNum(c.X, v) && !sameNum(c.Y, v) {
+				continue
+			}
+			t := b.Succs[0]
+			if neg {
+				t = b.Succs[1]
+			}
+			if len(t.Preds) == 1 && (t == use || t.Dominates(use)) {
+				return true
+			}
+		case *ssa.Call:
+			if f := c.Call.StaticCallee(); f != nil && f.String() == "math.IsNaN" && sameNum(c.Call.Args[0], v) {
+				// not-NaN edge
+				nn := b.Succs[1]
+				if neg {
+					nn = b.Succs[0]
+				}
+				other := b.Succs[0]
+				if neg {
+					other = b.Succs[1]
+				}
+				if len(nn.Preds) == 1 && (nn == use || nn.Dominates(use)) {
+					return true
+				}
+				if b.Dominates(use) && !reachableFrom(other, nil)[use] {
+					return true
+				}
+			}
+		case *ssa.Phi:
+			// `IsNaN(x) || x > n` lowered to a phi of conditions: handled through the edges below
+			for i, ed := range c.Edges {
+				_ = i
+				if call, ok := ed.(*ssa.Call); ok && call.Call.StaticCallee() != nil && call.Call.StaticCallee().String() == "math.IsNaN" && sameNum(call.Call.Args[0], v) {
+					// the phi is true when IsNaN is true; the false edge of the whole condition implies !IsNaN
+					f := b.Succs[1]
+					if neg {
+						f = b.Succs[0]
+					}
+					other := b.Succs[0]
+					if neg {
+						other = b.Succs[1]
+					}
+					if (len(f.Preds) == 1 && (f == use || f.Dominates(use))) || (b.Dominates(use) && !reachableFrom(other, nil)[use]) {
+						return true
+					}
+				}
+			}
+		}
+	}
+	return false
 }
